@@ -11,8 +11,11 @@ trap 'rm -rf "$T"' EXIT
 export GOFLAGS=-mod=mod GOPROXY=off GOSUMDB=off GOTOOLCHAIN=local GO111MODULE=off
 cp "$HERE/gen.go" "$HERE/driver.ml" "$HERE/extract.v" "$T/"
 cd "$T"
-( cd "$THEORIES/.." && timeout 600 coqc -R theories JQ theories/Base/Bytes.v && timeout 600 coqc -R theories JQ theories/Num/F64.v )
-timeout 600 coqc -R "$THEORIES" JQ extract.v >/dev/null
+# compile private copies so that the shared tree (and its .vo files) is left untouched
+mkdir -p th/Base th/Num
+cp "$THEORIES/Base/Bytes.v" th/Base/ && cp "$THEORIES/Num/F64.v" th/Num/
+( cd th && timeout 600 coqc -R . JQ Base/Bytes.v && timeout 600 coqc -R . JQ Num/F64.v )
+timeout 600 coqc -R "$T/th" JQ extract.v >/dev/null
 ocamlfind ocamlopt -O3 -package str f64.mli f64.ml driver.ml -o driver 2>/dev/null || ocamlfind ocamlopt -package str f64.mli f64.ml driver.ml -o driver
 go run gen.go "$T/vectors.txt" "$SCALE"
 echo "vectors: $(wc -l < vectors.txt)"
